@@ -24,6 +24,8 @@ pub fn main(args: &[String]) {
   let ts_timeout: u64 = arg_or(args, "--ts-timeout-ms", "5000").parse().unwrap();
   let do_wasm = backends.contains("wasm");
   let do_ts = backends.contains("ts");
+  // `node --check` of every emitted TypeScript text costs one process each: only on request (C03)
+  let ts_syntax_check = crate::util::flag(args, "--ts-syntax");
   let mut records: Vec<Value> = vec![];
   // (record index, build name, ts text)
   let mut ts_jobs: Vec<(usize, String, String)> = vec![];
@@ -78,11 +80,13 @@ pub fn main(args: &[String]) {
             }
           }
           if do_ts {
-            match ts_run::check_ts_syntax(&c.ts) {
-              Ok(()) => b["ts_syntax"] = json!(true),
-              Err(e) => {
-                b["ts_syntax"] = json!(false);
-                b["ts_syntax_reason"] = json!(e);
+            if ts_syntax_check {
+              match ts_run::check_ts_syntax(&c.ts) {
+                Ok(()) => b["ts_syntax"] = json!(true),
+                Err(e) => {
+                  b["ts_syntax"] = json!(false);
+                  b["ts_syntax_reason"] = json!(e);
+                }
               }
             }
             ts_jobs.push((idx, name.clone(), c.ts));
